@@ -308,6 +308,23 @@ func c02Run(u *vfUnit) {
 			u.Count("programs_with_duplicate_ids", 1)
 			maxFrames = 0
 		}
+		if !dupIDs && len(prog) > 2 {
+			// an INIT is a request like any other when it comes again in the middle of a session: answered once
+			// (VERSION), in its place. And a request whose ANSWER is larger than any request may be: a REALPATH
+			// of a very long path (the NAME reply carries it twice).
+			insert := func(q vfPkt) {
+				at := 1 + r.Intn(len(prog)-1)
+				prog = append(prog[:at], append([]vfPkt{q}, prog[at:]...)...)
+			}
+			if pi%2 == 0 {
+				insert(vfPkt{Type: rfInit, Version: 3})
+				u.Count("programs_with_init_in_the_middle", 1)
+			}
+			if pi == 3 {
+				insert(vfPkt{Type: rfRealpath, ID: 0x7E000001, Path: "/" + strings.Repeat("a", 140<<10)})
+				u.Count("programs_with_an_answer_larger_than_256KiB", 1)
+			}
+		}
 		u.Count("requests_with_maximal_frame", int64(maxFrames))
 		u.Eval(label)
 		u.Count("programs", 1)
